@@ -150,6 +150,13 @@ class _FnScan(ast.NodeVisitor):
 
     # -- pass 2: writes
     def scan(self):
+        for dec in self.fn.decorator_list:
+            txt = ast.unparse(dec)
+            if "cache" in txt.lower() or "memo" in txt.lower():
+                # a memoising decorator is module-level state attached to the function: results (and, for mutable
+                # results, their later mutations) are shared between calls
+                self.sites.append((self.fn.lineno, f"memoising decorator @{txt[:40]}: results are shared between calls",
+                                   "__decorator__"))
         for node in ast.walk(self.fn):
             if isinstance(node, ast.Assign):
                 for t in node.targets:
